@@ -370,9 +370,27 @@ def check_paths(ob, st: Structure, sib: Siblings, paths: List[BodyPath], r: int)
                f"path condition contains `{[str(c) for (c, t), f in zip(p.conds, first) if f][0]}` (sibling position 0)")
         elif False in first:
             bad = [f"{'' if t else 'not '}{c}" for (c, t), f in zip(p.conds, first) if f is False]
-            ob("C08.2", f"{tag}: first-child test does not single out sibling position 0", core.VIOLATED, where,
-               f"the merge path requires {bad} about the sibling position A in [0, {sib.k - 1}]; cells at other positions pass it, "
-               f"so entries that are not the children of the emitted parent are replaced")
+            # a cell at a sibling position other than 0 that passes every condition the path puts on the cell itself
+            about = [(c, t) for (c, t), f in zip(p.conds, first) if f is False and not _mentions_cells(c)]
+            bad = [f"{'' if t else 'not '}{c}" for c, t in about] or bad
+            forms = [x for c, t in about for x in (c.left, c.right)] + [Lin.of(sib.A)]
+
+            def passes(vals, about=about):
+                for i, (c, t) in enumerate(about):
+                    l, r = vals[2 * i], vals[2 * i + 1]
+                    holds = {"==": l == r, "!=": l != r, "<": l < r, "<=": l <= r, ">": l > r, ">=": l >= r}[c.op]
+                    if holds != t:
+                        return False
+                return vals[-1] != 0
+            from .compact_model import find_valuation
+            wit = find_valuation(forms, passes)
+            if wit is not None:
+                ob("C08.2", f"{tag}: first-child test does not single out sibling position 0", core.VIOLATED, where,
+                   f"the merge path requires {bad} about the sibling position A in [0, {sib.k - 1}]; the cell at {wit[1]} (position {wit[0][-1]}) passes it, "
+                   f"so entries that are not the children of the emitted parent are replaced")
+            else:
+                ob("C08.2", f"{tag}: first-child test is not the plain test on the sibling position", core.UNDECIDED, where,
+                   f"the merge path requires {bad}; no cell at a position other than 0 that passes it was found on the searched grid")
         else:
             ob("C08.2", f"{tag}: merge without a first-child test", core.VIOLATED, where,
                f"path [{pc}] merges {adv} consecutive entries starting at ANY sibling position and emits cell_to_parent(cell): "
